@@ -109,14 +109,15 @@ static void mk_signals(void){
 }
 
 /* ---- exploration context ---- */
-typedef struct { int since,run,seen,last_active,extra; } mon_t;    /* times in half ms */
+typedef struct { int since,run,seen,last_active,extra,cold; } mon_t;    /* times in half ms; cold: no activity since the encoder was created / reset ("after activity stops" has no meaning yet: onset clauses not applicable) */
 #define MAXLVL 6
 typedef struct {
    cfg_t c; int k,gs,P,W,Lt,Lt0,encsz,n1,passidx,mixed,skiptrunk; int swo[MAXLVL+1]; int swone[MAXLVL+1]; OpusEncoder *enc[MAXLVL+1]; mon_t mon[MAXLVL+1]; int sw[MAXLVL+1]; int nsw;
    long nfail; int decmode;
 } ctx_t;
 
-static mc_ctr *c_dtxmode[3],*c_mixed,*c_advlate,*c_advlate_max;
+static mc_ctr *c_dtxmode[3],*c_mixed,*c_advlate,*c_advlate_max,*c_cold;
+static int g_cold_q1=0,g_coldwalk=0;
 static mc_ctr *c_sched,*c_enc,*c_eval,*c_dtxpk,*c_refresh,*c_cfg,*c_maxrun,*c_dec,*c_decpk;
 static mc_ctr *c_gapmax_mdB,*c_aftermin_mdB[2],*c_aftermax_mdB[2],*c_resmin_mdB;
 static mc_set *S_states,*S_obs;
@@ -175,16 +176,16 @@ static int step2(ctx_t *x,OpusEncoder *e,mon_t *m,int active,int mixo,int onech,
          /* the 200 ms mark is counted from the end of the last frame that contains activity (the encoder is handed frames; a frame that
             is not digitally silent is not 'digital silence' input).  extra = silence already elapsed inside a frame that turned silent:
             used for an advisory statistic only (onset later than 200 ms + T measured from the true end of activity) */
-         m->since=0; m->extra=(mixo>0 && !active) ? T-mixo : 0; m->seen=0; kind = tiny?5:(mixo>0?6:0);
+         m->since=0; m->extra=(mixo>0 && !active) ? T-mixo : 0; m->seen=0; m->cold=0; kind = tiny?5:(mixo>0?6:0);
       } else {
          if (!m->seen) m->since=start+T;
          if (tiny){
-            if (c->analysis && !m->seen && start<400-T && !why) why="onset_early";
+            if (c->analysis && !m->seen && !m->cold && start<400-T && !why) why="onset_early";
             kind = 2;
             m->seen=1;
          } else {
-            if (c->analysis && !m->seen && start>400 && !why) why="onset_late";
-            else if (c->analysis && !m->seen && start+m->extra>400){ MC_INC(c_advlate); MC_MAX(c_advlate_max,start+m->extra-400); }
+            if (c->analysis && !m->seen && !m->cold && start>400 && !why) why="onset_late";
+            else if (c->analysis && !m->seen && !m->cold && start+m->extra>400){ MC_INC(c_advlate); MC_MAX(c_advlate_max,start+m->extra-400); }
             kind = m->seen?3:1; if (m->seen && m->run>0) MC_INC(c_refresh);
          }
       }
@@ -344,6 +345,24 @@ static void sched_item(long it,void *vctx){
          for(f=0;f<x.Lt;f++) step(&x,x.enc[1],&x.mon[1],1,x.W+L+f,pkt);
          x.gs=gs; x.nsw=0;
       }
+      if (x.c.dtx && g_cold_q1>0 && which!=2){
+         /* cold starts: the stream BEGINS with digital silence (fresh encoder; and warmed-up encoder after OPUS_RESET_STATE) for --cold ms, then
+            activity.  No activity has stopped yet, so the onset clauses do not apply; run length, in-DTX and resumption do. */
+         int L=g_cold_q1/x.c.tq, gs=x.gs, v; x.gs=1;
+         for(v=0;v<2;v++){ OpusEncoder *e=x.enc[1]; mon_t m; memset(&m,0,sizeof m); m.cold=1; m.last_active=0;
+            x.nsw=0; x.swo[0]=x.swo[1]=x.swone[0]=x.swone[1]=0; x.sw[x.nsw++]=0; x.sw[x.nsw++]=L;
+            mc_case("e2","%s cold start (%s) %g ms of silence",x.c.name,v?"after OPUS_RESET_STATE":"fresh encoder",L*x.c.tq/2.0);
+            if (v){ memcpy(e,base,x.encsz); opus_encoder_ctl(e,OPUS_RESET_STATE); } else { OpusEncoder *f0=mk_encoder(&x.c,NULL); memcpy(e,f0,x.encsz); free(f0); }
+            MC_INC(c_sched); MC_INC(c_cold);
+            for(f=0;f<L;f++) step(&x,e,&m,0,x.W+f,pkt);
+            for(f=0;f<x.Lt;f++) step(&x,e,&m,1,x.W+L+f,pkt);
+            if (MC.tier || g_coldwalk){ /* every schedule of the first pass again from the cold start, beginning in silence */
+               set_pass(&x,&g_pass[which][0],1); x.n1=0;
+               if (v){ memcpy(x.enc[0],base,x.encsz); opus_encoder_ctl(x.enc[0],OPUS_RESET_STATE); } else { OpusEncoder *f0=mk_encoder(&x.c,NULL); memcpy(x.enc[0],f0,x.encsz); free(f0); }
+               memset(&x.mon[0],0,sizeof(mon_t)); x.mon[0].cold=1; x.nsw=0;
+               walk(&x,0,0,0,0,0,0,0); x.gs=1; } }
+         x.gs=gs; x.nsw=0;
+      }
       for(pi=0;pi<g_npass[which];pi++){
          set_pass(&x,&g_pass[which][pi],pi);
          mc_case("e2","%s pass k=%d grid=%gms n1=%d mixed=%d",x.c.name,x.k,x.gs*x.c.tq/2.0,x.n1,x.mixed);
@@ -404,11 +423,12 @@ int main(int argc,char **argv){
    mc_init(argc,argv,"C20","sched");
    MC.part=mc_arg_s("--part","sched"); mode=mc_arg_s("--mode","sched");
    parse_passes(mc_arg_s("--passes","2:100:0"),0); parse_passes(mc_arg_s("--passes-off","2:200:0"),1); parse_passes(mc_arg_s("--passes-stereo",""),2);
+   g_cold_q1=(int)(2*mc_arg("--cold",0)); g_coldwalk=(int)mc_arg("--coldwalk",0);
    g_long_q1=(int)(2*mc_arg("--long",0)); g_mixgap_q1[0]=(int)(2*mc_arg("--mixgap",280)); g_mixgap_q1[1]=(int)(2*mc_arg("--mixgap2",0));
    cfgset=(int)mc_arg("--cfgset",0); g_hash_states=(int)mc_arg("--hash",1);
    c_sched=mc_counter("schedules"); c_enc=mc_counter("encodes"); c_eval=mc_counter("evaluations"); c_dtxpk=mc_counter("dtx_packets"); c_refresh=mc_counter("refresh_packets");
    c_dtxmode[0]=mc_counter("dtx_packets_silk_toc"); c_dtxmode[1]=mc_counter("dtx_packets_hybrid_toc"); c_dtxmode[2]=mc_counter("dtx_packets_celt_toc");
-   c_mixed=mc_counter("mixed_frames"); c_advlate=mc_counter("adv_late_vs_true_stop_frames"); c_advlate_max=mc_counter("adv_late_vs_true_stop_max_q1");
+   c_mixed=mc_counter("mixed_frames"); c_advlate=mc_counter("adv_late_vs_true_stop_frames"); c_cold=mc_counter("cold_start_streams"); c_advlate_max=mc_counter("adv_late_vs_true_stop_max_q1");
    c_cfg=mc_counter("configurations"); c_maxrun=mc_counter("max_dtx_run_q1"); c_dec=mc_counter("decoded_streams"); c_decpk=mc_counter("decoded_packets");
    c_gapmax_mdB=mc_counter("cal_gap_max_mdB_plus200000"); c_aftermin_mdB[0]=mc_counter("cal_after_min_neg_mdB_plus200000"); c_aftermax_mdB[0]=mc_counter("cal_after_max_mdB_plus200000"); c_aftermin_mdB[1]=mc_counter("cal_after1ch_min_neg_mdB_plus200000"); c_aftermax_mdB[1]=mc_counter("cal_after1ch_max_mdB_plus200000"); c_resmin_mdB=mc_counter("cal_resume_min_neg_mdB_plus200000");
    st=mc_counter("states"); tr=mc_counter("transitions"); dn=mc_counter("distinct_nontrivial");
